@@ -105,7 +105,11 @@ pub fn drive(a: &Args) -> i32 {
         let offs: [i64; 16] = [-1_000_000, -3600, -302, -301, -300, -299, -298, -10, 0, 10, 28, 29, 30, 31, 32, 3600];
         let off = if rng.gen_bool(0.8) { offs[rng.gen_range(0..offs.len())] } else { rng.gen_range(-400..100) };
         let before = now_secs() as i64;
-        let ts = if i % 50 == 0 { u64::MAX } else if i % 50 == 1 { 0 } else { (before + off).max(0) as u64 };
+        // extremes of the 64-bit range and of its signed reading: arithmetic on the timestamp must not overflow anywhere
+        let b = before as u64;
+        let extremes: [u64; 16] = [u64::MAX, 0, 1, 1 << 63, (1 << 63) - 1, (1 << 63) + 1, (1 << 63) + b, (1 << 63) + b / 2, (1 << 63) + b - 1,
+                                   (1 << 63) + b + 1, u64::MAX - b, u64::MAX - 300, u64::MAX - 29, 1 << 62, u32::MAX as u64, (u32::MAX as u64) + 1];
+        let ts = if i % 10 == 0 { extremes[(i / 10) as usize % extremes.len()] } else { (before + off).max(0) as u64 };
         let data: Vec<u8> = (0..rng.gen_range(0..64)).map(|_| rng.r#gen()).collect();
         let valid = saorsa_core::network::verif_encode_wire("/verif/topic", data.clone(), &claimed, ts);
         let (bytes, built) = match rng.gen_range(0..10) {
